@@ -205,6 +205,30 @@ Proof.
     destruct (X step k) as [_ [_ K]]; [rewrite E; left; reflexivity|exact K].
 Qed.
 
+(* the number of collect re-runs of a result list: at most one per AddCollectedEvent *)
+Definition is_addcoll (r : result) : bool := match r with RAddColl _ _ => true | _ => false end.
+
+Lemma one_result_reruns P step tev dc now a r a' m :
+  one_result P step tev dc now a r = Ok a' ->
+  (length (runs_of m (k_cmds a')) <= length (runs_of m (k_cmds a)) + (if is_addcoll r then 1 else 0))%nat.
+Proof.
+  intros H. unfold one_result in H.
+  break_match H; try discriminate; inversion H; subst; clear H; cbn [k_cmds is_addcoll];
+    rewrite ?runs_of_app; cbn [runs_of app]; rewrite ?app_nil_r, ?app_length; cbn [length];
+    repeat match goal with |- context [if ?b then _ else _] => destruct b end; cbn [length app runs_of]; lia.
+Qed.
+
+Lemma results_loop_reruns P step tev dc now m : forall rs a a',
+  results_loop P step tev dc now a rs = Ok a' ->
+  (length (runs_of m (k_cmds a')) <= length (runs_of m (k_cmds a)) + length (filter is_addcoll rs))%nat.
+Proof.
+  induction rs as [|r t IH]; intros a a' H; cbn [results_loop] in H.
+  - inversion H; subst. cbn. lia.
+  - destruct (one_result P step tev dc now a r) as [a1|] eqn:O; [|discriminate].
+    specialize (IH _ _ H). pose proof (one_result_reruns _ _ _ _ _ _ _ _ m O) as X.
+    cbn [filter]. destruct (is_addcoll r); cbn [length] in *; lia.
+Qed.
+
 (* what a step-result tick does to the tick's own step *)
 Theorem process_step_runs_exact P step wid tev rs s now s' cs w :
   Keys_ok s -> process_step P step wid tev rs s now = Ok (s', cs) -> zlookup step (workers s) = Some w ->
@@ -213,7 +237,7 @@ Theorem process_step_runs_exact P step wid tev rs s now s' cs w :
     Forall (eq wid) reruns /\ In wid (wids w) /\
     ((reruns <> [] /\ wids w' = wids w ++ fresh) \/ (reruns = [] /\ wids w' = remove_nat wid (wids w) ++ fresh) \/
      (reruns = [] /\ wids w' = wids w ++ fresh)) /\
-    (forall m, m <> step -> runs_of m cs = []).
+    (forall m, m <> step -> runs_of m cs = []) /\ (length reruns <= length (filter is_addcoll rs))%nat.
 Proof.
   unfold process_step, Keys_ok. intros ND H L. rewrite L in H.
   destruct (find_ip wid (inprogress w)) as [this|] eqn:F; [|discriminate].
@@ -228,6 +252,7 @@ Proof.
   destruct (results_loop_runs _ _ _ _ _ _ _ _ _ _ _ Hok0 RL (fun _ _ => eq_refl) (Forall_nil _) (fun X => match X eq_refl with end))
     as [R1 [R2 R3]].
   pose proof (results_loop_ok _ _ _ _ _ _ _ _ _ _ _ Hok0 RL) as [Hw _ _ _].
+  pose proof (results_loop_reruns _ _ _ _ _ step _ _ _ RL) as RLen. cbn [k_cmds runs_of length plus] in RLen.
   set (reruns := runs_of step (k_cmds a)) in *.
   assert (In wid (wids w)) as Fin' by exact Fin.
   assert (forall fresh, wids (k_w a) ++ fresh = wids w ++ fresh) as HwF by (intro; rewrite Hw; reflexivity).
@@ -236,7 +261,7 @@ Proof.
     destruct (existsb is_exit (k_cmds a)).
     + inversion H; subst; clear H. exists (k_w a), reruns, []. unfold put_w; cbn [workers with_workers].
       rewrite zlookup_zupdate_eq, !app_nil_r.
-      split; [reflexivity|]. split; [reflexivity|]. split; [exact R2|]. split; [exact Fin'|]. split; [|exact R1].
+      split; [reflexivity|]. split; [reflexivity|]. split; [exact R2|]. split; [exact Fin'|]. split; [|split; [exact R1|exact RLen]].
       destruct reruns eqn:E; [right; right; split; [reflexivity|exact Hw]|left; split; [discriminate|exact Hw]].
     + destruct (drain _ _ _ _) as [[w3 c3]|] eqn:D; [|discriminate].
       inversion H; subst; clear H. destruct (drain_runs_exact _ _ _ _ _ _ D) as [E3 O3].
@@ -244,7 +269,7 @@ Proof.
       rewrite zlookup_zupdate_eq, runs_of_app.
       split; [reflexivity|]. split; [reflexivity|]. split; [exact R2|]. split; [exact Fin'|]. split.
       * rewrite Hw in E3. destruct reruns eqn:E; [right; right; split; [reflexivity|exact E3]|left; split; [discriminate|exact E3]].
-      * intros m Hm. rewrite runs_of_app, (R1 m Hm), (O3 m Hm). reflexivity.
+      * split; [|exact RLen]. intros m Hm. rewrite runs_of_app, (R1 m Hm), (O3 m Hm). reflexivity.
   - (* slot released *)
     assert (reruns = []) as Rn.
     { destruct reruns eqn:E; [reflexivity|]. assert (false = true) by (apply R3; discriminate). discriminate. }
@@ -256,12 +281,137 @@ Proof.
       rewrite zlookup_zupdate_eq. cbn [runs_of app]. fold reruns. rewrite Rn, !app_nil_r.
       split; [reflexivity|]. split; [reflexivity|]. split; [constructor|]. split; [exact Fin'|]. split.
       * right. left. split; [reflexivity|exact Hrm].
-      * intros m Hm. cbn [runs_of]. apply R1. exact Hm.
+      * split; [|cbn; lia]. intros m Hm. cbn [runs_of]. apply R1. exact Hm.
     + destruct (drain _ _ _ _) as [[w3 c3]|] eqn:D; [|discriminate].
       inversion H; subst; clear H. destruct (drain_runs_exact _ _ _ _ _ _ D) as [E3 O3].
       exists w3, [], (runs_of step c3). unfold put_w; cbn [workers with_workers].
       rewrite zlookup_zupdate_eq. cbn [runs_of app]. rewrite runs_of_app. fold reruns. rewrite Rn. cbn [app].
       split; [reflexivity|]. split; [reflexivity|]. split; [constructor|]. split; [exact Fin'|]. split.
       * right. left. split; [reflexivity|]. rewrite E3, Hrm. reflexivity.
-      * intros m Hm. cbn [runs_of]. rewrite runs_of_app, (R1 m Hm), (O3 m Hm). reflexivity.
+      * split; [|cbn; lia]. intros m Hm. cbn [runs_of]. rewrite runs_of_app, (R1 m Hm), (O3 m Hm). reflexivity.
+Qed.
+
+(* ---------- every tick, every step ---------- *)
+Lemma Forall2_runs_lookup cs : forall ws ws' n w,
+  Forall2 (runs_rel cs) ws ws' -> zlookup n ws = Some w ->
+  exists w', zlookup n ws' = Some w' /\ wids w' = wids w ++ runs_of n cs.
+Proof.
+  induction ws as [|[k v] t IH]; intros ws' n w F L; [discriminate|].
+  inversion F as [|? [k' v'] ? t' [K R] F']; subst. cbn [fst snd] in *. subst k'.
+  cbn [zlookup] in *. destruct (Z.eqb_spec n k) as [->|Hne].
+  - inversion L; subst. exists v'. split; [reflexivity|exact R].
+  - apply (IH _ _ _ F' L).
+Qed.
+
+Lemma process_step_other_steps P step wid tev rs s now s' cs n w :
+  Keys_ok s -> Inv_state s -> process_step P step wid tev rs s now = Ok (s', cs) -> n <> step ->
+  zlookup n (workers s) = Some w ->
+  exists w', zlookup n (workers s') = Some w' /\ wids w' = wids w.
+Proof.
+  intros ND Hi H Hne L.
+  pose proof (process_step_tel _ _ _ _ _ _ _ _ _ ND Hi H) as F.
+  (* the telemetry word of another step is empty: its open set is unchanged *)
+  assert (exists w', zlookup n (workers s') = Some w' /\ tel_run (wids w) (step_tel n cs) = Some (wids w')) as [w' [L' T]].
+  { clear -F L. revert L. generalize (workers s) (workers s') F. clear F.
+    induction l as [|[k v] t IH]; intros l' F L; [discriminate|].
+    inversion F as [|? [k' v'] ? t' [K R] F']; subst. cbn [fst snd] in *. subst k'.
+    cbn [zlookup] in *. destruct (Z.eqb_spec n k) as [->|Hne].
+    - inversion L; subst. exists v'. split; [reflexivity|exact R].
+    - apply (IH _ F' L). }
+  exists w'. split; [exact L'|].
+  (* step_tel n cs = [] because every StepStateChanged of a step-result tick names the tick's step *)
+  assert (step_tel n cs = []) as E.
+  { unfold process_step in H.
+    destruct (zlookup step (workers s)) as [w0|] eqn:L0; [|discriminate].
+    destruct (find_ip wid (inprogress w0)) as [this|] eqn:Fd; [|discriminate].
+    destruct (results_loop _ _ _ _ _ _ _) as [a|] eqn:RL; [|discriminate].
+    assert (In step (map fst (workers s))) as Hin by (eapply zlookup_in; exact L0).
+    assert (acc_tel step w0 (workers s) a) as [_ Hc _].
+    { eapply results_loop_tel; [|exact Hin|exact RL]. constructor; cbn; [reflexivity|intros; reflexivity|apply same_others_refl]. }
+    assert (forall c3 w2 w3 f, drain step w2 now f = Ok (w3, c3) -> step_tel n c3 = []) as Dn.
+    { intros c3 w2 w3 f D.
+      assert (forall fuel w2 w3 c3, drain step w2 now fuel = Ok (w3, c3) -> step_tel n c3 = []) as G.
+      { induction fuel as [|f0 IHf]; intros x y c D0; cbn [drain] in D0; [inversion D0; reflexivity|].
+        destruct (queue x); [inversion D0; reflexivity|]. destruct (Nat.ltb _ _); [|inversion D0; reflexivity].
+        destruct (add_or_enqueue _ _ _ _) as [[w1 c1]|] eqn:A; [|discriminate].
+        destruct (drain step w1 now f0) as [[w4 c4]|] eqn:D1; [|discriminate]. inversion D0; subst.
+        rewrite step_tel_app, (IHf _ _ _ D1), app_nil_r.
+        unfold add_or_enqueue in A. destruct (Nat.ltb _ _) in A.
+        - destruct (first_free _ _ _) in A; [|discriminate]. inversion A; subst. cbn [step_tel].
+          destruct (Z.eqb_spec step n) as [X|_]; [congruence|reflexivity].
+        - inversion A; subst. cbn [step_tel]. destruct (Z.eqb_spec step n) as [X|_]; [congruence|reflexivity]. }
+      eapply G; exact D. }
+    destruct (k_keep a); destruct (existsb is_exit (k_cmds a)).
+    - inversion H; subst. apply Hc.
+    - destruct (drain _ _ _ _) as [[w3 c3]|] eqn:D; [|discriminate]. inversion H; subst.
+      rewrite step_tel_app, Hc, (Dn _ _ _ _ D). reflexivity.
+    - inversion H; subst. cbn [step_tel]. destruct (Z.eqb_spec step n) as [X|_]; [congruence|apply Hc].
+    - destruct (drain _ _ _ _) as [[w3 c3]|] eqn:D; [|discriminate]. inversion H; subst.
+      cbn [app step_tel]. destruct (Z.eqb_spec step n) as [X|_]; [congruence|].
+      rewrite step_tel_app, Hc, (Dn _ _ _ _ D). reflexivity. }
+  rewrite E in T. cbn [tel_run] in T. inversion T. reflexivity.
+Qed.
+
+(* the shape of the started slots of ANY tick, per step *)
+Definition own_slot (t : tick) (n : Z) (k : nat) : Prop := exists e rs, t = TStep n k e rs.
+
+Definition runs_shape (t : tick) (n : Z) (w : wstate) (ws' : list (Z * wstate)) (cs : list command) : Prop :=
+  exists w' reruns fresh,
+    zlookup n ws' = Some w' /\ runs_of n cs = reruns ++ fresh /\
+    (forall k, In k reruns -> own_slot t n k /\ In k (wids w) /\ wids w' = wids w ++ fresh) /\
+    (wids w' = wids w ++ fresh \/ exists k, own_slot t n k /\ reruns = [] /\ wids w' = remove_nat k (wids w) ++ fresh) /\
+    (length reruns <= match t with TStep _ _ _ rs => length (filter is_addcoll rs) | _ => 0 end)%nat.
+
+Lemma shape_fresh t n w ws' cs w' :
+  zlookup n ws' = Some w' -> wids w' = wids w ++ runs_of n cs -> runs_shape t n w ws' cs.
+Proof.
+  intros L' E. exists w', [], (runs_of n cs). split; [exact L'|]. split; [reflexivity|]. split; [intros k []|]. split; [left; exact E|cbn; lia].
+Qed.
+
+Lemma shape_none t n w ws' cs :
+  zlookup n ws' = Some w -> runs_of n cs = [] -> runs_shape t n w ws' cs.
+Proof. intros L' E. apply (shape_fresh t n w ws' cs w L'). rewrite E, app_nil_r. reflexivity. Qed.
+
+Theorem reduce_runs_shape P t s now s' cs n w :
+  Keys_ok s -> Inv_state s -> reduce P t s now = Ok (s', cs) -> zlookup n (workers s) = Some w ->
+  runs_shape t n w (workers s') cs.
+Proof.
+  intros ND Hi H L. unfold reduce in H.
+  assert (forall (c0 : list command) (b : bool) m, runs_of m (if b then c0 ++ [CSchedIdle] else c0) = runs_of m c0) as Sn.
+  { intros c0 b m. destruct b; [|reflexivity]. rewrite runs_of_app. cbn. apply app_nil_r. }
+  destruct t.
+  - destruct (process_add _ _ _ _) as [[s1 c1]|] eqn:E; [|discriminate]. inversion H; subst; clear H.
+    destruct (Forall2_runs_lookup _ _ _ _ _ (process_add_runs_exact _ _ _ _ _ _ ND E) L) as [w' [L' R]].
+    apply (shape_fresh _ _ _ _ _ w' L'). rewrite Sn. exact R.
+  - destruct (process_step _ _ _ _ _ _ _) as [[s1 c1]|] eqn:E; [|discriminate]. inversion H; subst; clear H.
+    destruct (Z.eq_dec n step) as [->|Hne].
+    + destruct (process_step_runs_exact _ _ _ _ _ _ _ _ _ _ ND E L) as [w' [reruns [fresh [L' [R [Fa [Fin [Sh [_ RLen]]]]]]]]].
+      exists w', reruns, fresh. rewrite Sn. split; [exact L'|]. split; [exact R|]. split; [|split; [|exact RLen]].
+      * intros k Hk. rewrite Forall_forall in Fa. rewrite <- (Fa k Hk).
+        split; [exists e, rs; reflexivity|]. split; [exact Fin|].
+        destruct Sh as [[_ W]|[[Rn _]|[Rn _]]]; [exact W|subst; destruct Hk|subst; destruct Hk].
+      * destruct Sh as [[_ W]|[[Rn W]|[_ W]]]; [left; exact W| |left; exact W].
+        right. exists wid. split; [exists e, rs; reflexivity|]. split; assumption.
+    + destruct (process_step_other_steps _ _ _ _ _ _ _ _ _ _ _ ND Hi E Hne L) as [w' [L' W]].
+      destruct (zlookup step (workers s)) as [w0|] eqn:L0.
+      * destruct (process_step_runs_exact _ _ _ _ _ _ _ _ _ _ ND E L0) as [_ [_ [_ [_ [_ [_ [_ [_ [Oth _]]]]]]]]].
+        apply (shape_fresh _ _ _ _ _ w' L'). rewrite Sn, (Oth n Hne), app_nil_r. exact W.
+      * unfold process_step in E. rewrite L0 in E. discriminate.
+  - inversion H; subst; clear H. apply shape_none; [exact L|repeat match goal with |- context [if ?b then _ else _] => destruct b end; reflexivity].
+  - inversion H; subst; clear H. apply shape_none; [exact L|repeat match goal with |- context [if ?b then _ else _] => destruct b end; reflexivity].
+  - inversion H; subst; clear H. apply shape_none; [exact L|repeat match goal with |- context [if ?b then _ else _] => destruct b end; reflexivity].
+  - destruct (process_waiter_timeout _ _ _ _) as [[s1 c1]|] eqn:E; [|discriminate]. inversion H; subst; clear H.
+    unfold process_waiter_timeout in E.
+    destruct (zlookup step (workers s)) as [w0|] eqn:L0; [|inversion E; subst; apply shape_none; [exact L|rewrite Sn; reflexivity]].
+    destruct (find_waiter_idx _ _ _); [|inversion E; subst; apply shape_none; [exact L|rewrite Sn; reflexivity]].
+    destruct (nth_error _ _) as [wt|]; [|inversion E; subst; apply shape_none; [exact L|rewrite Sn; reflexivity]].
+    destruct (w_resolved wt); [inversion E; subst; apply shape_none; [exact L|rewrite Sn; reflexivity]|].
+    destruct (add_or_enqueue _ _ _ _) as [[w2 c2]|] eqn:A; [|discriminate]. inversion E; subst; clear E.
+    destruct (aoe_runs_exact _ _ _ _ _ _ A) as [E1 O1].
+    unfold put_w; cbn [workers with_workers].
+    destruct (Z.eq_dec n step) as [->|Hne].
+    + rewrite L0 in L. inversion L; subst. apply (shape_fresh _ _ _ _ _ w2); [apply zlookup_zupdate_eq|rewrite Sn; exact E1].
+    + apply shape_none; [rewrite zlookup_zupdate_neq by exact Hne; exact L|rewrite Sn; apply O1; exact Hne].
+  - inversion H; subst; clear H. apply shape_none; [exact L|destruct (check_idle s'); reflexivity].
+  - inversion H; subst; clear H. apply shape_none; [exact L|reflexivity].
 Qed.
